@@ -21,7 +21,9 @@ import (
 	"strconv"
 	"strings"
 	"sync"
+	"time"
 
+	"github.com/spf13/cast"
 	"rivaas.dev/config"
 	"verif/harness/hx"
 )
@@ -42,7 +44,12 @@ type readerT struct {
 type loadT struct {
 	Srcs    []srcT
 	Readers []readerT
+	// Race, when set, is what the scripted sources return to a second Load that runs concurrently
+	// with this one on the same Config (file and environment sources serve both alike)
+	Race []srcT `json:",omitempty"`
 }
+
+type loaderKey struct{}
 
 type caseT struct {
 	Schema bool
@@ -123,6 +130,7 @@ func renderBound(b *Bound) [][2]string {
 // scriptSrc returns the content scripted for the current Load; `onLoad` places readers.
 type scriptSrc struct {
 	cur    *srcT
+	race   *srcT
 	onLoad func()
 }
 
@@ -130,10 +138,14 @@ func (s *scriptSrc) Load(ctx context.Context) (map[string]any, error) {
 	if s.onLoad != nil {
 		s.onLoad()
 	}
-	if s.cur.Fail {
+	cur := s.cur
+	if ctx.Value(loaderKey{}) == 1 {
+		cur = s.race
+	}
+	if cur.Fail {
 		return nil, errors.New("source failure (injected)")
 	}
-	return deepCopyMap(s.cur.M), nil
+	return deepCopyMap(cur.M), nil
 }
 
 func deepCopy(v any) any {
@@ -220,6 +232,7 @@ type runT struct {
 	cfg     *config.Config
 	bound   *Bound
 	cur     []*srcT // current script position per source
+	race    []*srcT // what the scripted sources give the second, concurrent loader
 	dir     string
 	envPref string
 	hooks   struct{ src0, val0, validate func() }
@@ -235,11 +248,13 @@ func (r *runT) build(c *caseT, withHooks bool) error {
 		}
 	}
 	r.cur = make([]*srcT, nsrc)
+	r.race = make([]*srcT, nsrc)
 	r.real = make([]config.Source, nsrc)
 	var opts []config.Option
 	kinds := c.Loads[0].Srcs
 	for i := 0; i < nsrc; i++ {
 		r.cur[i] = &srcT{}
+		r.race[i] = &srcT{}
 		kind := "map"
 		if i < len(kinds) {
 			kind = kinds[i].Kind
@@ -250,7 +265,7 @@ func (r *runT) build(c *caseT, withHooks bool) error {
 		case "env":
 			opts = append(opts, config.WithEnv(r.envPref))
 		default:
-			s := &scriptSrc{cur: r.cur[i]}
+			s := &scriptSrc{cur: r.cur[i], race: r.race[i]}
 			if i == 0 && withHooks {
 				s.onLoad = func() {
 					if h := r.hooks.src0; h != nil {
@@ -299,6 +314,10 @@ func (r *runT) stage(l *loadT) {
 			s = l.Srcs[i]
 		}
 		*r.cur[i] = s
+		*r.race[i] = s
+		if l.Race != nil && i < len(l.Race) && s.Kind == "map" {
+			*r.race[i] = l.Race[i]
+		}
 		switch s.Kind {
 		case "json", "yaml":
 			p := filepath.Join(r.dir, "s"+strconv.Itoa(i)+"."+s.Kind)
@@ -362,6 +381,37 @@ type loadObs struct {
 	seen   []map[string]any // one per reader (free readers: first snapshot that is neither before nor after, else before)
 	seenOK []bool           // free readers: every snapshot was one of the two
 	place  []int            // effective placement: a reader whose callback did not run reads after the Load (4)
+	typed  bool             // the typed getters agree with Get: value present (falsy or not) -> converted value, nil -> zero / default
+	raced  bool             // a second Load ran concurrently
+	failB  bool             // … and failed
+}
+
+// typedOK compares String/Int/Bool/Float64, the …Or variants and the generic Get/GetOr with what
+// they are documented to be: a conversion of Get(key), the default only when Get(key) is nil.
+func typedOK(cfg *config.Config, keys []string) bool {
+	ok := true
+	for _, k := range keys {
+		v := cfg.Get(k)
+		ok = ok && cfg.String(k) == cast.ToString(v) && cfg.Int(k) == cast.ToInt(v) && cfg.Bool(k) == cast.ToBool(v) &&
+			cfg.Float64(k) == cast.ToFloat64(v) && cfg.Int64(k) == cast.ToInt64(v)
+		if v == nil {
+			ok = ok && cfg.StringOr(k, "dflt") == "dflt" && cfg.IntOr(k, 4242) == 4242 && cfg.BoolOr(k, true) &&
+				cfg.Float64Or(k, 2.5) == 2.5 && config.GetOr(cfg, k, 77) == 77 && config.Get[string](cfg, k) == ""
+		} else {
+			ok = ok && cfg.StringOr(k, "dflt") == cast.ToString(v) && cfg.IntOr(k, 4242) == cast.ToInt(v) &&
+				cfg.BoolOr(k, true) == cast.ToBool(v) && cfg.Float64Or(k, 2.5) == cast.ToFloat64(v)
+			if iv, isInt := v.(int); isInt {
+				ok = ok && config.GetOr(cfg, k, 77) == iv && config.Get[int](cfg, k) == iv
+			}
+			if sv, isStr := v.(string); isStr {
+				ok = ok && config.GetOr(cfg, k, "d") == sv
+			}
+			if bv, isBool := v.(bool); isBool {
+				ok = ok && config.GetOr(cfg, k, !bv) == bv
+			}
+		}
+	}
+	return ok
 }
 
 func snapshot(cfg *config.Config) map[string]any { return deepCopyMap(*cfg.Values()) }
@@ -434,7 +484,41 @@ func (r *runT) runLoad(l *loadT) (o loadObs) {
 		}
 	}
 	before := snapshot(r.cfg)
-	err := r.cfg.Load(context.Background())
+	var err error
+	if l.Race != nil {
+		// two Loads at once: both are inside source 0's Load (outside the lock) before either goes on
+		o.raced = true
+		arrived := make(chan struct{}, 2)
+		release := make(chan struct{})
+		r.hooks.src0 = func() {
+			arrived <- struct{}{}
+			select {
+			case <-release:
+			case <-time.After(2 * time.Second):
+			}
+		}
+		var errB error
+		var lw sync.WaitGroup
+		lw.Add(2)
+		go func() { defer lw.Done(); err = r.cfg.Load(context.Background()) }()
+		go func() {
+			defer lw.Done()
+			errB = r.cfg.Load(context.WithValue(context.Background(), loaderKey{}, 1))
+		}()
+		if len(l.Srcs) > 0 && l.Srcs[0].Kind == "map" { // a file/env source has no hook: no barrier then
+			for n := 0; n < 2; n++ {
+				select {
+				case <-arrived:
+				case <-time.After(2 * time.Second):
+				}
+			}
+		}
+		close(release)
+		lw.Wait()
+		o.failB = errB != nil
+	} else {
+		err = r.cfg.Load(context.Background())
+	}
 	close(stop)
 	wg.Wait()
 	validateHook = nil
@@ -472,11 +556,12 @@ func (r *runT) runLoad(l *loadT) (o loadObs) {
 	for _, k := range r.c.Keys {
 		o.gets = append(o.gets, r.cfg.Get(k))
 	}
+	o.typed = typedOK(r.cfg, r.c.Keys)
 	return o
 }
 
 // freshOutcome: what a brand-new Config over the same sources (same stage) makes of the binding.
-func (r *runT) freshOutcome() (ok bool, fields [][2]string, vals map[string]any, loaded bool) {
+func (r *runT) freshOutcome(second bool) (ok bool, fields [][2]string, vals map[string]any, loaded bool) {
 	var f runT
 	f.dir, f.envPref = r.dir, r.envPref
 	c2 := *r.c
@@ -485,6 +570,10 @@ func (r *runT) freshOutcome() (ok bool, fields [][2]string, vals map[string]any,
 	}
 	for i := range f.cur {
 		*f.cur[i] = *r.cur[i]
+		if second {
+			*f.cur[i] = *r.race[i]
+		}
+		*f.race[i] = *f.cur[i]
 	}
 	err := f.cfg.Load(context.Background())
 	if err != nil {
@@ -547,29 +636,59 @@ func emit(id string, c caseT, st *hx.Stats) string {
 	}
 	var obs []loadObs
 	l.Tok("L").Nat(len(c.Loads))
-	faults, overlaps, vanished := 0, 0, 0
+	faults, overlaps, vanished, races := 0, 0, 0, 0
 	var prevKeys map[string]bool
 	for li := range c.Loads {
 		ld := &c.Loads[li]
 		o := r.runLoad(ld)
 		obs = append(obs, o)
-		l.Tok("S").Nat(len(r.cur))
 		seenKeys := map[string]int{}
 		nowKeys := map[string]bool{}
-		for i, s := range r.cur {
-			m, ok := r.returned(i, s)
-			if !ok {
-				l.Tok("F")
-				faults++
-				continue
+		// writeInput ships what the sources hand to a loader (the first one, or the concurrent second
+		// one) and what a fresh Config makes of it
+		writeInput := func(second bool) {
+			l.Tok("S").Nat(len(r.cur))
+			for i := range r.cur {
+				s := r.cur[i]
+				if second {
+					s = r.race[i]
+				}
+				m, ok := r.returned(i, s)
+				if !ok {
+					l.Tok("F")
+					faults++
+					continue
+				}
+				l.Tok("O")
+				kvsTerm(l, m)
+				if !second {
+					for k := range m {
+						seenKeys[strings.ToLower(k)]++
+						nowKeys[strings.ToLower(k)] = true
+					}
+				}
 			}
-			l.Tok("O")
-			kvsTerm(l, m)
-			for k := range m {
-				seenKeys[strings.ToLower(k)]++
-				nowKeys[strings.ToLower(k)] = true
+			// binding outcome of a fresh Config, and per field whether its key is in the merged values
+			if c.Bound {
+				ok, fields, vals, _ := r.freshOutcome(second)
+				if ok {
+					l.Tok("B").Tok("K").Nat(len(fields))
+					for _, f := range fields {
+						l.Str(f[0]).Str(f[1])
+					}
+					l.Tok("FI").Nat(len(boundFields))
+					for i, f := range boundFields {
+						l.Str(f.name).Bool(lookupPath(vals, f.path)).Str(zero[i][1])
+					}
+				} else {
+					// the fresh Config failed: at the binding stage, or earlier (then the model never looks at it)
+					l.Tok("B").Tok("R").Tok("FI").Nat(0)
+				}
+			} else {
+				l.Tok("B").Tok("N").Tok("FI").Nat(0)
 			}
 		}
+		writeInput(false)
 		for _, n := range seenKeys {
 			if n >= 2 {
 				overlaps++
@@ -581,28 +700,16 @@ func emit(id string, c caseT, st *hx.Stats) string {
 			}
 		}
 		prevKeys = nowKeys
-		// binding outcome of a fresh Config, and per field whether its key is in the merged values
-		if c.Bound {
-			ok, fields, vals, _ := r.freshOutcome()
-			if ok {
-				l.Tok("B").Tok("K").Nat(len(fields))
-				for _, f := range fields {
-					l.Str(f[0]).Str(f[1])
-				}
-				l.Tok("FI").Nat(len(boundFields))
-				for i, f := range boundFields {
-					l.Str(f.name).Bool(lookupPath(vals, f.path)).Str(zero[i][1])
-				}
-			} else {
-				// the fresh Config failed: at the binding stage, or earlier (then the model never looks at it)
-				l.Tok("B").Tok("R").Tok("FI").Nat(0)
-			}
-		} else {
-			l.Tok("B").Tok("N").Tok("FI").Nat(0)
-		}
 		l.Tok("RD").Nat(len(ld.Readers))
 		for j := range ld.Readers {
 			l.Nat(o.place[j])
+		}
+		if ld.Race != nil {
+			l.Tok("RC").Bool(true)
+			writeInput(true)
+			races++
+		} else {
+			l.Tok("RC").Bool(false)
 		}
 		for _, s := range r.cur {
 			if s.M != nil {
@@ -627,10 +734,15 @@ func emit(id string, c caseT, st *hx.Stats) string {
 		for _, g := range o.gets {
 			resTok(l, g)
 		}
+		l.Tok("TY").Bool(o.typed)
 		l.Tok("RD").Nat(len(o.seen))
 		for j, s := range o.seen {
 			l.Bool(o.seenOK[j])
 			kvsTerm(l, s)
+		}
+		l.Tok("RC").Bool(o.raced)
+		if o.raced {
+			l.Bool(o.failB)
 		}
 	}
 	if st != nil {
@@ -661,6 +773,9 @@ func emit(id string, c caseT, st *hx.Stats) string {
 		}
 		if nrd > 0 {
 			st.Count("with_readers")
+		}
+		if races > 0 {
+			st.Count("with_two_racing_loads")
 		}
 	}
 	return l.String() + hx.Comment(c)
@@ -861,8 +976,29 @@ func genCase(r *hx.Rand, tier string) caseT {
 			}
 			prev = append(prev, m)
 		}
-		for n := r.Intn(3); n > 0; n-- {
-			ld.Readers = append(ld.Readers, readerT{Place: hx.Pick(r, []int{0, 1, 2, 3, 4, 9})})
+		if r.Chance(1, 6) {
+			// a second Load runs concurrently and gets different content from the scripted sources
+			for i := 0; i < nsrc; i++ {
+				s := ld.Srcs[i]
+				if s.Kind == "map" {
+					s.Fail = r.Chance(1, 12)
+					s.M = genMap(r, 0)
+					if c.Bound || r.Chance(1, 2) {
+						genBindable(r, s.M)
+					}
+					if c.Bound && r.Chance(1, 8) {
+						s.M["reject"] = true
+					}
+					if c.NV > 0 && r.Chance(1, 8) {
+						s.M["vfail0"] = true
+					}
+				}
+				ld.Race = append(ld.Race, s)
+			}
+		} else {
+			for n := r.Intn(3); n > 0; n-- {
+				ld.Readers = append(ld.Readers, readerT{Place: hx.Pick(r, []int{0, 1, 2, 3, 4, 9})})
+			}
 		}
 		c.Loads = append(c.Loads, ld)
 	}
@@ -960,6 +1096,12 @@ func fixedCases() []caseT {
 			one(m("name", "x", "reject", true)),
 			one(m("name", "x", "server", "not-a-map")),
 			one(m("name", "second")),
+		}},
+		// two Loads racing: values and bound struct come from the same one
+		{Bound: true, Keys: []string{"name"}, Loads: []loadT{
+			one(m("name", "first")),
+			{Srcs: []srcT{{Kind: "map", M: m("name", "a-wins", "level", "info")}}, Race: []srcT{{Kind: "map", M: m("name", "b-wins", "debug", true)}}},
+			{Srcs: []srcT{{Kind: "map", M: m("name", "a2")}}, Race: []srcT{{Kind: "map", M: m("name", "b2", "reject", true)}}},
 		}},
 		// readers at every placement around a successful and a failing Load
 		{NV: 1, Bound: true, Keys: []string{"name"}, Loads: []loadT{
